@@ -48,6 +48,7 @@ struct Plan {
 
 static std::string g_scratch_base = "/dev/shm";
 static std::string g_corpus_dir, g_replay_dir = "/verif/replays";
+static bool g_sweep = false;     // corpus = sweep.txt; run idx translates module idx (each module once, untruncated)
 static bool g_write_replays = true, g_keep = false, g_no_t_option = false;
 
 // ------------------------------------------------------------------ shared child -> parent report
@@ -310,7 +311,7 @@ static bool plan_from_text(const std::string& text, Plan& p) {
 struct CorpusEntry { std::string wasm, ref; int nfuncs; long size; std::string changed; };
 static std::vector<CorpusEntry> g_corpus;
 static void load_corpus() {
-    FILE* f = fopen((g_corpus_dir + "/corpus.txt").c_str(), "r"); if (!f) { fprintf(stderr, "simxl: no corpus at %s\n", g_corpus_dir.c_str()); _exit(96); }
+    FILE* f = fopen((g_corpus_dir + (g_sweep ? "/sweep.txt" : "/corpus.txt")).c_str(), "r"); if (!f) { fprintf(stderr, "simxl: no corpus at %s\n", g_corpus_dir.c_str()); _exit(96); }
     char a[512], b[512], c[4096]; int n; long sz;
     while (fscanf(f, "%511s %511s %d %ld %4095s", a, b, &n, &sz, c) == 5) { CorpusEntry e; e.wasm = a[0] == '/' ? a : g_corpus_dir + "/" + a; e.ref = std::string(b) == "-" ? "" : (b[0] == '/' ? b : g_corpus_dir + "/" + b); e.nfuncs = n; e.size = sz; e.changed = c; g_corpus.push_back(e); }
     fclose(f);
@@ -349,12 +350,13 @@ static std::string outpath_for(const Plan& p, const std::string& root) {
 
 static Plan make_plan(const std::string& prop, uint64_t root, uint64_t idx, bool c10_enum) {
     Plan p; p.prop = prop;
-    uint64_t gid = c10_enum ? idx / 4096 : idx / 128;
+    uint64_t gid = g_sweep ? idx + 0x5EE9000000ull : c10_enum ? idx / 4096 : idx / 128;
     p.gseed = mix64(root, mix64(gid, 0xE2));
     p.seed = mix64(root, mix64(idx, 0xE2E2));
     Rng g; g.seed(p.gseed);       // group stream: module, options, paths, decoys
     Rng r; r.seed(p.seed);        // run stream: schedule knobs, faults, truncation
-    const CorpusEntry& ce = g_corpus[g.below((uint32_t)g_corpus.size())];
+    uint32_t pick = g.below((uint32_t)g_corpus.size());
+    const CorpusEntry& ce = g_corpus[g_sweep ? (size_t)(idx % g_corpus.size()) : pick];
     p.module = ce.wasm; p.nfuncs = ce.nfuncs;
     // options
     int nf = ce.nfuncs;
@@ -396,7 +398,7 @@ static Plan make_plan(const std::string& prop, uint64_t root, uint64_t idx, bool
     p.mem_mean = mm[r.below(5)];
     p.spurious = r.below(2) ? 0 : (r.below(2) ? 0.02 : 0.2);
     { static const uint32_t le[] = {0, 1, 1, 2, 5}; p.libc_every = le[(p.seed >> 40) % 5]; }
-    if (prop == "C10") {
+    if (prop == "C10" && !g_sweep) {
         long sz = ce.size;
         if (c10_enum) { long k = (long)(idx % 4096); p.trunc = (k == 0) ? -1 : (k < sz ? k : -2); }
         else if (r.below(4) != 0 && sz > 1) { p.trunc = r.below(3) == 0 ? (long)r.below((uint32_t)std::min<long>(sz, 64)) + 1 : 1 + (long)r.below((uint32_t)(sz - 1)); if (p.trunc >= sz) p.trunc = sz - 1; }
@@ -754,7 +756,7 @@ int main(int argc, char** argv) {
         if (a == "--prop") prop = nxt(); else if (a == "--seed") root = strtoull(nxt().c_str(), 0, 10); else if (a == "--start") start = strtoull(nxt().c_str(), 0, 10);
         else if (a == "--count") count = strtoull(nxt().c_str(), 0, 10); else if (a == "--stride") stride = strtoull(nxt().c_str(), 0, 10); else if (a == "--replay") replay = nxt();
         else if (a == "--dump-plan") dump = true; else if (a == "--corpus") g_corpus_dir = nxt(); else if (a == "--replay-dir") g_replay_dir = nxt();
-        else if (a == "--no-replay-files") g_write_replays = false; else if (a == "--scratch") g_scratch_base = nxt(); else if (a == "--c10-enum") c10_enum = true;
+        else if (a == "--no-replay-files") g_write_replays = false; else if (a == "--scratch") g_scratch_base = nxt(); else if (a == "--c10-enum") c10_enum = true; else if (a == "--sweep") g_sweep = true;
         else if (a == "--keep") g_keep = true; else if (a == "--no-t-option") g_no_t_option = true; else if (a == "--canonical-dump") canon_dump = true;
     }
     S = (Shared*)mmap(nullptr, sizeof(Shared), PROT_READ | PROT_WRITE, MAP_SHARED | MAP_ANONYMOUS, -1, 0);
